@@ -38,6 +38,9 @@ type c11Driver struct {
 	// recorded on the failure-free run
 	sites []c11Fault
 	calls int
+	// live: when set, every step runs on these same controller instances (inside one bubble) instead of on fresh
+	// instances restored from the state: whatever the controllers keep in memory survives from step to step
+	live *w.Live
 }
 
 func (d *c11Driver) do(ev w.Event) {
@@ -51,7 +54,20 @@ func (d *c11Driver) do(ev w.Event) {
 		}
 	}
 	var out *w.StepOut
-	if len(mine) > 0 {
+	if d.live != nil {
+		d.live.API.FaultFn, d.live.API.NoStickyStop = nil, false
+		if len(mine) > 0 {
+			d.live.API.FaultFn, d.live.API.NoStickyStop = c11FaultFn(mine), true
+		}
+		out = w.Apply(d.live, d.s, ev, d.sc.Tpls)
+		d.live.API.FaultFn = nil
+		for _, call := range out.Log {
+			if call.Fault == w.FaultStop { // the process stopped: new instances take over
+				d.live.RestartControllers()
+				break
+			}
+		}
+	} else if len(mine) > 0 {
 		out = w.StepWithFault(d.t, d.sc, d.s, ev, c11FaultFn(mine))
 		fired := false
 		for _, call := range out.Log {
@@ -259,6 +275,42 @@ func applicable(s *w.State, ev w.Event) bool {
 	return true
 }
 
+// c11RunPersistent: the same script and faults on ONE set of controller instances kept for the whole run (a process
+// stop still replaces them). "The controller keeps no decision state outside the API objects": the outcome must be
+// the one of the failure-free run here as well; a run that only recovers when fresh instances take over depends on
+// memory.
+func c11RunPersistent(t *testing.T, run *h.Run, sc *w.Scenario, c c11Scenario, faults []c11Fault, want string) {
+	var got string
+	var final *w.State
+	var trace []w.Event
+	w.InBubble(t, sc.Init[0].Now, func() {
+		d := &c11Driver{t: t, run: run, sc: sc, faults: faults, live: w.NewLive(sc.Init[0], sc.Cfg)}
+		if faults == nil {
+			d.faults = []c11Fault{}
+		}
+		d.drive(c)
+		quiet := 0
+		for r := 0; r < 40 && quiet < 3; r++ {
+			if d.round() {
+				quiet = 0
+			} else {
+				quiet++
+			}
+		}
+		got, final, trace = c11Normal(d.s), d.s, d.done
+	})
+	run.Count("persistent_instance_runs", 1)
+	if got != want {
+		kinds := []string{}
+		for _, f := range faults {
+			kinds = append(kinds, f.Kind+" "+strings.SplitN(f.Key, " ", 3)[0]+" "+strings.SplitN(f.Key, " ", 3)[1])
+		}
+		run.Violate(h.Violation{Signature: "C11/memory: with the same controller instances kept after the failure the run does not reach the failure-free outcome (" + strings.Join(kinds, " + ") + ")",
+			Monitor: "C11/persistent", Message: "got:\n" + got, Rank: int64(len(faults)),
+			Replay: map[string]interface{}{"scenario": sc.Name, "faults": faults, "mode": "same controller instances for the whole run", "trace": fmt.Sprint(trace), "final_state": final.Describe(), "expected_final": strings.Split(want, "\n")}})
+	}
+}
+
 func c11Run(t *testing.T, run *h.Run, sc *w.Scenario, c c11Scenario, faults []c11Fault, want string, mons []func(*w.MonCtx)) {
 	d := &c11Driver{t: t, run: run, sc: sc, faults: faults, mons: mons}
 	if faults == nil {
@@ -346,8 +398,12 @@ func TestC11(t *testing.T) {
 		run.Nontrivial("scenario:" + c.name)
 		// sanity: the fault-free replay reproduces the expected final store
 		c11Run(t, run, sc, c, nil, want, mons)
+		c11RunPersistent(t, run, sc, c, nil, want)
 		parallel(len(sites), func(i int) {
 			c11Run(t, run, sc, c, []c11Fault{sites[i]}, want, mons)
+			if sites[i].Kind != w.FaultStop {
+				c11RunPersistent(t, run, sc, c, []c11Fault{sites[i]}, want)
+			}
 			run.Nontrivial("site:" + c.name + ":" + sites[i].Kind + ":" + strings.SplitN(sites[i].Key, " ", 3)[0] + strings.SplitN(sites[i].Key, " ", 3)[1])
 		})
 		if h.Thorough() && len(sites) <= 400 {
